@@ -16,6 +16,7 @@ import CssVerif.Driver.LinkOps
 import CssVerif.Driver.OwnOps
 import CssVerif.Driver.ResolveOps
 import CssVerif.Driver.OmitOps
+import CssVerif.Driver.SaveStackOps
 import CssVerif.Driver.PPOps
 import CssVerif.Driver.UrlOps
 import CssVerif.Driver.EscOps
@@ -69,6 +70,7 @@ def step (line : String) : String :=
   | ["rfcpath", m] => ImportOps.opRfcPath m
   | ["tree", fx, n, hist] => LinkOps.run fx n hist
   | ["own", roots, hist] => OwnOps.run roots hist
+  | ["savestack", pvs, flag, evs] => SaveStackOps.run pvs flag evs
   | ["resolve", sh] => ResolveOps.opResolve sh
   | ["omit", bits, sheet] => OmitOps.opOmit bits sheet
   | ["pp", g, fl, toks] => PP.PPOps.opPP g fl toks
